@@ -50,6 +50,17 @@ class Client(kernel.Actor):
             self.frames[-1]["t_done"] = now
         if self.disconnected or self.closed is not None:
             raise falcon.WebSocketDisconnected()
+        # a frame that is already buffered in the socket is returned without yielding to the loop
+        if (self.pos < len(self.script) and self.script[self.pos][0] in ("send", "dyn", "disconnect")
+                and self.world.p_buffered > 0 and self.sim.flip(self.world.p_buffered)):
+            self.sim.probes["buffered_frames"] += 1
+            self.sim.note("fire", self.label() + ":buffered")
+            self.recv_fut = self.sim.loop.create_future()
+            try:
+                self.fire()
+                return self.recv_fut.result()
+            finally:
+                self.recv_fut = None
         self.recv_fut = self.sim.loop.create_future()
         try:
             return await self.recv_fut
@@ -132,7 +143,7 @@ class Client(kernel.Actor):
 
 class RelayWorld:
     def __init__(self, sim, backend, clients, cfg=None, storage_opts=None, message_timeout=1800,
-                 rate_limits=None, gc_interval=None, quiet_horizon=0.0, preload=None):
+                 rate_limits=None, gc_interval=None, quiet_horizon=0.0, preload=None, p_buffered=0.0):
         self.sim = sim
         self.backend = backend
         self.env = RunEnv(sim, backend, cfg=cfg, storage_opts=storage_opts)
@@ -144,6 +155,7 @@ class RelayWorld:
         self.gc_interval = gc_interval
         self.quiet_horizon = quiet_horizon
         self.preload = preload or []
+        self.p_buffered = p_buffered
         self.log = logging.getLogger("nostr_relay.sim")
         self.registry_hook = None
         self.final = {}
